@@ -37,7 +37,7 @@ CFG = {
 }
 
 MANIFEST = {
-    "text": "Proof: 18 Lean theorems over a model of udpSessionManager as goroutine programs (receive loop, one reply loop per session, "
+    "text": "Proof: 28 Lean theorems (18 properties, 2 constant and 8 source-skeleton obligations) over a model of udpSessionManager as goroutine programs (receive loop, one reply loop per session, "
             "sweeper, the two halves of CloseWithErr, environment) with `forall sched : List Label`: a socket is written only with datagrams of "
             "the session that opened it and its packets go upstream tagged with that id (isolation, io_only_on_opened); the table is a function "
             "and the exit function deletes its own entry, never a newer one with the same id (table_functional, exit_deletes_own); Close() is "
